@@ -52,38 +52,38 @@ func TestMain(m *testing.M) {
 
 // RunResult is one line of worker output.
 type RunResult struct {
-	Seed       uint64         `json:"seed"`
-	Index      int            `json:"index"`
-	Scenario   string         `json:"scenario"`
-	Steps      uint64         `json:"steps"`
-	SimNs      int64          `json:"sim_ns"`
-	WallUs     int64          `json:"wall_us"`
-	Hash       string         `json:"hash"`
-	SchedHash  string         `json:"sched_hash"`
-	Evals      int            `json:"evals"`
-	Probes     map[string]int `json:"probes,omitempty"`
-	Faults     map[string]int `json:"faults,omitempty"`
-	States     []string       `json:"states,omitempty"`
-	Violations []*Violation   `json:"violations,omitempty"`
-	Replay     *Replay        `json:"replay,omitempty"`
-	Sample     interface{}    `json:"sample,omitempty"`
-	Races      int            `json:"races,omitempty"`
-	Inconclusive int          `json:"inconclusive,omitempty"`
+	Seed         uint64         `json:"seed"`
+	Index        int            `json:"index"`
+	Scenario     string         `json:"scenario"`
+	Steps        uint64         `json:"steps"`
+	SimNs        int64          `json:"sim_ns"`
+	WallUs       int64          `json:"wall_us"`
+	Hash         string         `json:"hash"`
+	SchedHash    string         `json:"sched_hash"`
+	Evals        int            `json:"evals"`
+	Probes       map[string]int `json:"probes,omitempty"`
+	Faults       map[string]int `json:"faults,omitempty"`
+	States       []string       `json:"states,omitempty"`
+	Violations   []*Violation   `json:"violations,omitempty"`
+	Replay       *Replay        `json:"replay,omitempty"`
+	Sample       interface{}    `json:"sample,omitempty"`
+	Races        int            `json:"races,omitempty"`
+	Inconclusive int            `json:"inconclusive,omitempty"`
 }
 
 // Replay is the replay file format.
 type Replay struct {
-	V         int               `json:"v"`
-	Property  string            `json:"property"`
-	Scenario  string            `json:"scenario"`
-	RunSeed   uint64            `json:"run_seed"`
-	Race      bool              `json:"race,omitempty"`
-	Case      json.RawMessage   `json:"case"`
-	Tape      []uint32          `json:"tape"`
-	Violation *Violation        `json:"violation,omitempty"`
-	Trace     []sched.TraceRec  `json:"trace,omitempty"`
-	Toolchain string            `json:"toolchain,omitempty"`
-	Note      string            `json:"note,omitempty"`
+	V         int              `json:"v"`
+	Property  string           `json:"property"`
+	Scenario  string           `json:"scenario"`
+	RunSeed   uint64           `json:"run_seed"`
+	Race      bool             `json:"race,omitempty"`
+	Case      json.RawMessage  `json:"case"`
+	Tape      []uint32         `json:"tape"`
+	Violation *Violation       `json:"violation,omitempty"`
+	Trace     []sched.TraceRec `json:"trace,omitempty"`
+	Toolchain string           `json:"toolchain,omitempty"`
+	Note      string           `json:"note,omitempty"`
 }
 
 var watchdogStep atomic.Uint64
@@ -322,6 +322,14 @@ func replayMain(t *testing.T) int {
 		return 2
 	}
 	fmt.Printf("replayed %s/%s seed=%d steps=%d hash=%s\n", rp.Scenario, rp.Property, rp.RunSeed, sim.Step(), hex(sim.Hash()))
+	if *fVerbose {
+		for _, tr := range sim.Trace {
+			fmt.Fprintf(os.Stderr, "  %4d %s\n", tr.Step, tr.Label)
+		}
+		if out.Debug != nil {
+			out.Debug(os.Stderr)
+		}
+	}
 	for _, v := range out.Violations {
 		if rp.Violation == nil || v.Key() == rp.Violation.Key() {
 			fmt.Printf("reproduced: class=%s signature=%q step=%d\n  %s\n", v.Class, v.Signature, v.Step, firstLines(v.Detail, 6))
